@@ -172,7 +172,23 @@ fn classify(tok: &str, q: &Q) -> Exp {
         if let Some(e) = number_exp(tok) {
             return e;
         }
-        return if q.digit { if tok.ends_with(':') { Exp::Unspecified } else { Exp::Is(Value::symbol(tok)) } } else { Exp::MustNotBeNumber };
+        // with leading-digit symbols the token is a name; a trailing colon then makes it a
+        // keyword exactly when the postfix spelling is enabled
+        return if q.digit {
+            if tok.ends_with(':') && tok.len() > 1 && !tok[..tok.len() - 1].contains(':') {
+                if q.kw & KW_POSTFIX != 0 {
+                    Exp::Is(Value::keyword(&tok[..tok.len() - 1]))
+                } else {
+                    Exp::Is(Value::symbol(tok))
+                }
+            } else if tok.contains(':') {
+                Exp::Unspecified
+            } else {
+                Exp::Is(Value::symbol(tok))
+            }
+        } else {
+            Exp::MustNotBeNumber
+        };
     }
     if cs[0] == '+' || cs[0] == '-' {
         if cs.len() == 1 {
@@ -204,7 +220,7 @@ pub const TOKENS: &[&str] = &[
     // keywords
     ":a", "a:", ":a:", "::", ":", "#:a", "#:abc", ":abc", "abc:", "λ:", ":λ", "$a:", "a:b", ":a:b", "a:b:", "#:λ", "!:", "<=:", "+:", "-:", "...:", ".a:", "é:", "a-b:", ":a-b",
     // digit-initial
-    "0", "1", "42", "007", "1.5", "0.5", "1e3", "1E3", "1e-3", "1.5e+10", "1+", "1-", "1/2", "1.5.6", "0x10", "12ab", "1e", "1.", "1e+", "1a", "9z", "1_000", "1:", "2a:", "12.", "1..2", "1e3x", "3d", "1x", "0b1",
+    "0", "1", "42", "007", "1.5", "0.5", "1e3", "1E3", "1e-3", "1.5e+10", "1+", "1-", "1/2", "1.5.6", "0x10", "12ab", "1e", "1.", "1e+", "1a", "9z", "1_000", "1:", "2a:", "12.", "1..2", "1e3x", "3d", "1x", "0b1", "12ab:", "1/2:", "0x10:", "1e3:", "1.5.6:", "7.", "12.e3", "1.0e+INF", "0.0e+NaN",
     // sign-initial
     "+", "-", "+1", "-1", "+1.5", "-1e3", "+a", "-a", "->x", "+.a", "-..", "--", "+-", "-1a", "+1+", "-1.5.6", "+@", "-!",
     // radix forms
